@@ -9,6 +9,7 @@ package main
 // not an atom, a constant or a boolean/compare combination of them is unknown.
 
 import (
+	"fmt"
 	"go/token"
 
 	"golang.org/x/tools/go/ssa"
@@ -176,24 +177,55 @@ func (p *Program) guardEvalDepth(fn *ssa.Function, spec guardSpec, cell map[stri
 				walk(state{blk: s.blk.Succs[0], prev: s.blk, env: s.env, events: s.events, depth: s.depth + 1})
 				return
 			}
-			// boolean helper of the module (e.g. an extracted guard): evaluate it over the same cell, one level deep
+			// boolean helper of the module (e.g. an extracted guard): evaluate it over the same cell, one level deep; its events
+			// are kept, and the caller continues once per distinct (result, events) outcome
 			if c, ok := in.(*ssa.Call); ok && depthLeft > 0 {
-				if cal := c.Call.StaticCallee(); cal != nil && p.inModule(cal) && len(cal.Blocks) > 0 && cal.Signature.Results().Len() == 1 && isBool(cal.Signature.Results().At(0).Type()) {
-					sub := guardSpec{Atoms: spec.Atoms, Event: func(ssa.Instruction) string { return "" }, Classify: func(ssa.Instruction) string { return "" }}
-					outs := p.guardEvalDepth(cal, sub, cell, depthLeft-1)
-					agree, known := "", len(outs) > 0
-					for _, o := range outs {
-						if o.Class != "return:true" && o.Class != "return:false" {
-							known = false
+				if cal := c.Call.StaticCallee(); cal != nil && p.inModule(cal) && len(cal.Blocks) > 0 && cal.Signature.Results().Len() == 1 && isBool(cal.Signature.Results().At(0).Type()) && spec.Classify(in) == "" {
+					if _, isAtom := spec.Atoms(in); !isAtom {
+						sub := spec
+						sub.Classify = func(ssa.Instruction) string { return "" }
+						if !spec.AtomEvents {
+							sub.Event = func(ssa.Instruction) string { return "" }
 						}
-						if agree == "" {
-							agree = o.Class
-						} else if agree != o.Class {
-							known = false
+						outs := p.guardEvalDepth(cal, sub, cell, depthLeft-1)
+						type oc struct {
+							known, val bool
+							ev         []string
 						}
-					}
-					if known {
-						s.env[c] = gval{known: true, isB: true, b: agree == "return:true"}
+						var ocs []oc
+						seenOC := map[string]bool{}
+						for _, o := range outs {
+							x := oc{ev: o.Events}
+							switch o.Class {
+							case "return:true":
+								x.known, x.val = true, true
+							case "return:false":
+								x.known, x.val = true, false
+							}
+							k := fmt.Sprint(x.known, x.val, x.ev)
+							if !seenOC[k] {
+								seenOC[k] = true
+								ocs = append(ocs, x)
+							}
+						}
+						if len(ocs) == 1 && len(ocs[0].ev) == 0 {
+							if ocs[0].known {
+								s.env[c] = gval{known: true, isB: true, b: ocs[0].val}
+							}
+						} else if len(ocs) > 0 {
+							for _, x := range ocs {
+								env2 := map[ssa.Value]gval{}
+								for kk, vv := range s.env {
+									env2[kk] = vv
+								}
+								if x.known {
+									env2[c] = gval{known: true, isB: true, b: x.val}
+								}
+								ev := append(append([]string(nil), s.events...), x.ev...)
+								walk(state{blk: s.blk, prev: s.prev, env: env2, events: ev, depth: s.depth + 1, idx: ii + 1})
+							}
+							return
+						}
 					}
 				}
 			}
